@@ -144,6 +144,7 @@ fn single_oracle(c: &SingleCase) -> Result<(), Failure> {
     // construction
     let mut objs = Vec::new();
     for v in [c.a.f(), c.b.f(), c.c.f()] {
+        deserialised_values_are_legal::<SingleObjective>(|r, c| DeProbe::<SingleObjective>(std::marker::PhantomData).read(r, c), "SingleObjective", &[v], true)?;
         let r = SingleObjective::try_from(v);
         match (r, legal(v)) {
             (Ok(o), true) => {
@@ -164,11 +165,11 @@ fn single_oracle(c: &SingleCase) -> Result<(), Failure> {
     for x in &objs {
         for y in &objs {
             let want = num_cmp(x.value(), y.value());
-            let got = catch(|| (x.cmp(y), x.partial_cmp(y), x == y, x < y, x <= y, x > y));
+            let got = catch(|| (x.cmp(y), x.partial_cmp(y), x == y, x < y, x <= y, x > y, x >= y, x != y, x.max(y) == if want == Ordering::Greater { x } else { y }, x.min(y) == if want == Ordering::Greater { y } else { x }));
             match got {
-                Ok((c1, c2, eq, lt, le, gt)) => {
+                Ok((c1, c2, eq, lt, le, gt, ge, ne, max_ok, min_ok)) => {
                     ensure_that!(c1 == want && c2 == Some(want), "C09 ordering disagrees with numeric order", "cmp({x:?}, {y:?}) = {c1:?}/{c2:?}, numeric {want:?}");
-                    ensure_that!(eq == (want == Ordering::Equal) && lt == (want == Ordering::Less) && le == (want != Ordering::Greater) && gt == (want == Ordering::Greater), "C09 comparison operators disagree", "{x:?} vs {y:?}: == {eq} < {lt} <= {le} > {gt}, numeric {want:?}");
+                    ensure_that!(eq == (want == Ordering::Equal) && lt == (want == Ordering::Less) && le == (want != Ordering::Greater) && gt == (want == Ordering::Greater) && ge == (want != Ordering::Less) && ne != eq && max_ok && min_ok, "C09 comparison operators disagree", "{x:?} vs {y:?}: == {eq} != {ne} < {lt} <= {le} > {gt} >= {ge}, max/min as the order says: {max_ok}/{min_ok}; numeric {want:?}");
                 }
                 Err(p) => fail!("C09 comparison panics", "comparing {x:?} and {y:?} panicked: {p}"),
             }
@@ -233,6 +234,61 @@ pub struct MultiCase {
 
 pub struct MultiCheck;
 
+// ------------------------------------------------------------------------------------------------
+// construction through deserialisation, if the tree offers it
+// ------------------------------------------------------------------------------------------------
+// The pinned tree gives the objective types no `Deserialize` impl, so `try_from` is the only way in. Should a tree
+// offer one, it is one more construction path the legality rule applies to. The probe resolves at compile time:
+// the inherent method exists only where `T: DeserializeOwned`, otherwise the call falls back to the trait method.
+
+pub struct DeProbe<T>(pub std::marker::PhantomData<T>);
+pub trait NoDeserialize {
+    fn read(&self, _ron: &str, _cbor: &[u8]) -> Option<Vec<Result<Vec<f64>, String>>> {
+        None
+    }
+}
+impl<T> NoDeserialize for DeProbe<T> {}
+pub trait RawValues {
+    fn raw_values(&self) -> Vec<f64>;
+}
+impl RawValues for SingleObjective {
+    fn raw_values(&self) -> Vec<f64> {
+        vec![self.value()]
+    }
+}
+impl RawValues for MultiObjective {
+    fn raw_values(&self) -> Vec<f64> {
+        self.value().to_vec()
+    }
+}
+impl<T: serde::de::DeserializeOwned + RawValues> DeProbe<T> {
+    pub fn read(&self, ron: &str, cbor: &[u8]) -> Option<Vec<Result<Vec<f64>, String>>> {
+        Some(vec![
+            catch(|| ron::from_str::<T>(ron).map(|t| t.raw_values()).map_err(|e| e.to_string())).unwrap_or_else(|p| Err(format!("panic: {p}"))),
+            catch(|| ciborium::de::from_reader::<T, _>(cbor).map(|t| t.raw_values()).map_err(|e| e.to_string())).unwrap_or_else(|p| Err(format!("panic: {p}"))),
+        ])
+    }
+}
+
+/// Every value that comes out of a deserialisation (if the type offers one) is a legal objective value. Returns whether
+/// the type offers one.
+fn deserialised_values_are_legal<T>(probe: impl Fn(&str, &[u8]) -> Option<Vec<Result<Vec<f64>, String>>>, what: &str, raw: &[f64], single: bool) -> Result<bool, Failure> {
+    let _ = std::marker::PhantomData::<T>;
+    let (ron_text, mut cbor) = (if single { format!("({})", ron::to_string(&raw[0]).unwrap_or_default()) } else { format!("({})", ron::to_string(&raw.to_vec()).unwrap_or_default()) }, Vec::new());
+    if single {
+        let _ = ciborium::ser::into_writer(&raw[0], &mut cbor);
+    } else {
+        let _ = ciborium::ser::into_writer(&raw.to_vec(), &mut cbor);
+    }
+    let Some(results) = probe(&ron_text, &cbor) else { return Ok(false) };
+    for (fmt, r) in ["RON", "CBOR"].iter().zip(results) {
+        if let Ok(values) = r {
+            ensure_that!(values.iter().all(|v| legal(*v)), "C09 deserialisation yields an illegal objective value", "{what} read from {fmt} {ron_text:?} holds {values:?}");
+        }
+    }
+    Ok(true)
+}
+
 fn pareto(a: &[f64], b: &[f64]) -> Option<Ordering> {
     if a.len() != b.len() {
         return None;
@@ -255,7 +311,7 @@ impl Check for MultiCheck {
         "C09/multi".into()
     }
     fn classes(&self) -> &'static [&'static str] {
-        &["trade-off pair (len>=2)", "different lengths", "dominance", "rejected vector", "equal vectors", "dominance chain a<b<c"]
+        &["trade-off pair (len>=2)", "different lengths", "dominance", "rejected vector", "equal vectors", "dominance chain a<b<c", "the type offers Deserialize (one more construction path; not on the pinned tree)"]
     }
     fn oracle(&self, c: &MultiCase) -> Outcome {
         let mut classes = 0;
@@ -268,6 +324,9 @@ fn multi_oracle(c: &MultiCase, classes: &mut u64) -> Result<(), Failure> {
     let raws: Vec<Vec<f64>> = [&c.a, &c.b, &c.c].iter().map(|v| v.iter().map(|x| x.f()).collect()).collect();
     let mut objs: Vec<MultiObjective> = Vec::new();
     for raw in &raws {
+        if deserialised_values_are_legal::<MultiObjective>(|r, c| DeProbe::<MultiObjective>(std::marker::PhantomData).read(r, c), "MultiObjective", raw, false)? {
+            *classes |= 64;
+        }
         let ok = raw.iter().all(|v| legal(*v));
         let r1 = MultiObjective::try_from(raw.clone());
         let r2 = MultiObjective::try_from(raw.as_slice());
@@ -295,6 +354,10 @@ fn multi_oracle(c: &MultiCase, classes: &mut u64) -> Result<(), Failure> {
             ensure_that!(got == want, "C09 multi comparison is not Pareto dominance", "partial_cmp({a:?}, {b:?}) = {got:?}, Pareto dominance says {want:?}");
             ensure_that!((got == Some(Ordering::Equal)) == (a == b), "C09 multi Equal vs ==", "{a:?} vs {b:?}: partial_cmp {got:?} but == is {}", a == b);
             ensure_that!(b.partial_cmp(a) == got.map(Ordering::reverse), "C09 multi antisymmetry", "{a:?} vs {b:?}");
+            // the operators say what partial_cmp says (incomparable vectors: all four false, != true)
+            let ops = (a < b, a <= b, a > b, a >= b, a != b);
+            let want_ops = (got == Some(Ordering::Less), matches!(got, Some(Ordering::Less | Ordering::Equal)), got == Some(Ordering::Greater), matches!(got, Some(Ordering::Greater | Ordering::Equal)), got != Some(Ordering::Equal));
+            ensure_that!(ops == want_ops, "C09 multi comparison operators disagree with partial_cmp", "{a:?} vs {b:?}: (<, <=, >, >=, !=) = {ops:?}, partial_cmp = {got:?}");
             match want {
                 None if a.value().len() != b.value().len() => *classes |= 2,
                 None if a.value().len() >= 2 => *classes |= 1,
